@@ -1,4 +1,5 @@
-import Capella.Lemmas.XmlEscape
+import Capella.Lemmas.XmlRoundTrip
+import Capella.Lemmas.XmlLayout
 import Capella.Gen.Exs
 
 /-!
@@ -52,6 +53,127 @@ theorem content_safe (s : Str) :
 is affected by the look-behind. -/
 theorem attr_keeps_cdata_end : escape isEscText "a]]>b".toList = "a]]>b".toList := by decide
 
+/-- **`parse_ser`** — the writer is canonical up to layout: for **every** line length, reading
+what was written for a Capella-shaped document (`wfDoc`: no mixed content, non-blank text only,
+one prefix per namespace, nothing redeclared, comments without `>`) gives the document back, with
+attributes and namespace declarations in the order the file imposes (`canonDoc`). -/
+theorem parse_ser (ll : Nat) (d : Doc) (hwf : wfDoc d = true) :
+    parse (serialize ll true [] true d) = some (canonDoc d) := by
+  unfold parse
+  rw [stripDecl_serialize ll d hwf]
+  exact parseBody_serialize [] (by intro c hc; simp at hc) ll d hwf
+
+/-- The same for the complete file `ModelFile.write_xml` produces (XML declaration in front,
+80 columns for semantic fragments, unbounded otherwise). -/
+theorem parse_writeXml (k : FragKind) (d : Doc) (hwf : wfDoc d = true) :
+    parse (writeXml k d) = some (canonDoc d) := by
+  unfold parse
+  rw [stripDecl_writeXml]
+  exact parseBody_serialize ['\n'] nlOnly_nl _ d hwf
+
+/-- A document that already is in file order (every file Capella or this writer produced)
+comes back unchanged. -/
+theorem parse_ser_canonical (ll : Nat) (d : Doc) (hwf : wfDoc d = true) (hc : canonDoc d = d) :
+    parse (serialize ll true [] true d) = some d := by
+  rw [parse_ser ll d hwf, hc]
+
+/-- **Layout independence**: the wrap column decides where line breaks go and nothing else —
+two writes with different line lengths read back as the same document. -/
+theorem layout_independent (ll₁ ll₂ : Nat) (d : Doc) (hwf : wfDoc d = true) :
+    parse (serialize ll₁ true [] true d) = parse (serialize ll₂ true [] true d) := by
+  rw [parse_ser ll₁ d hwf, parse_ser ll₂ d hwf]
+
+/-- The writer loses nothing: two Capella-shaped documents with the same bytes are the same
+document up to file order. -/
+theorem ser_injective (ll : Nat) (d₁ d₂ : Doc) (h₁ : wfDoc d₁ = true) (h₂ : wfDoc d₂ = true)
+    (h : serialize ll true [] true d₁ = serialize ll true [] true d₂) : canonDoc d₁ = canonDoc d₂ := by
+  have := parse_ser ll d₁ h₁
+  rw [h, parse_ser ll d₂ h₂] at this
+  exact (Option.some.inj this).symm
+
+/-- Write–parse–write is a fixpoint for documents in file order (in particular for everything
+that was loaded from a file this writer or Capella wrote). -/
+theorem ser_idempotent (ll : Nat) (d : Doc) (hwf : wfDoc d = true) (hc : canonDoc d = d) :
+    (parse (serialize ll true [] true d)).map (serialize ll true [] true) =
+      some (serialize ll true [] true d) := by
+  rw [parse_ser_canonical ll d hwf hc]; rfl
+
+/-- The full fixpoint statement, for documents whose attributes or namespace declarations are
+*not* in file order (possible in memory after edits).  Not proved here; it is evaluated on every
+generated tree by the correspondence run (`canon_same_bytes`). -/
+def ser_idempotent_full : Prop :=
+  ∀ (ll : Nat) (d : Doc), wfDoc d = true →
+    (parse (serialize ll true [] true d)).map (serialize ll true [] true) =
+      some (serialize ll true [] true d)
+
+/-- **`wrap_spec`, part 1 — the counter is the column.**  The `pos` the attribute loop carries is
+the real column of what it has written (no written name or value contains a line break —
+`escape_safe`), so "`pos > line_length`" tests the real column. -/
+theorem wrap_column_exact (ll ai : Nat) (isRoot : Bool) (ws : List (Str × Str))
+    (hnl : ∀ w ∈ ws, '\n' ∉ w.1 ∧ '\n' ∉ w.2) (pos : Nat) (force : Bool) :
+    (serAttrs ll ai isRoot ws pos force).2 = colAfter pos (serAttrs ll ai isRoot ws pos force).1 :=
+  serAttrs_pos_exact ll ai isRoot ws hnl pos force
+
+/-- **`wrap_spec`, part 2 — the rule.**  In front of an attribute the writer breaks the line
+(and indents by `ai`) iff the column exceeds the line length or a break is forced (after the
+root's `id`); otherwise it writes one space.  The next decision is taken at the column reached. -/
+theorem wrap_rule (ll ai : Nat) (isRoot : Bool) (w : Str × Str) (rest : List (Str × Str))
+    (pos : Nat) (force : Bool) :
+    (serAttrs ll ai isRoot (w :: rest) pos force).1 =
+      (if breaksAt ll pos force then '\n' :: List.replicate ai ' ' else [' ']) ++ attrText w ++
+      (serAttrs ll ai isRoot rest
+        ((if breaksAt ll pos force then ai else pos + 1) + w.1.length + w.2.length + 3)
+        (isRoot && w.1 == "id".toList)).1 :=
+  serAttrs_cons ll ai isRoot w rest pos force
+
+/-- **`wrap_spec`, part 3 — an unbounded line never breaks** (visual and metadata fragments are
+written with `sys.maxsize`): if the tag fits, all attributes are on one line. -/
+theorem wrap_never_when_fits (ll ai : Nat) (ws : List (Str × Str)) (pos : Nat)
+    (hfit : pos + (flatAttrs ws).length ≤ ll + 1) :
+    (serAttrs ll ai false ws pos false).1 = flatAttrs ws :=
+  serAttrs_flat ll ai ws pos hfit
+
+/-- Attribute-level layout independence, on its own: whatever line length, column and forced
+break, the reader gets the same attribute list from a start tag. -/
+theorem attrs_layout_independent (ll₁ ll₂ ai₁ ai₂ : Nat) (r₁ r₂ : Bool) (ws : List (Str × Str))
+    (dv : Str × Str → Str) (hok : ∀ w ∈ ws, lexName w.1 ∧ valReads w.2 (dv w))
+    (p₁ p₂ : Nat) (f₁ f₂ sc : Bool) (X : Str) :
+    lexAttrs (ws.length + 1) ((serAttrs ll₁ ai₁ r₁ ws p₁ f₁).1 ++ (closerStr sc ++ X)) =
+    lexAttrs (ws.length + 1) ((serAttrs ll₂ ai₂ r₂ ws p₂ f₂).1 ++ (closerStr sc ++ X)) := by
+  have h1 := lexAttrs_serAttrs ll₁ ai₁ r₁ ws dv hok p₁ f₁ sc X 0
+  have h2 := lexAttrs_serAttrs ll₂ ai₂ r₂ ws dv hok p₂ f₂ sc X 0
+  simp only [Nat.zero_add] at h1 h2
+  rw [h1, h2]
+
+/-! ## The boundary of `wfDoc` (each clause excluded for a reason; witnesses) -/
+
+/-- Mixed content is outside the domain: the writer tests the *parent's* tail inside the child
+loop and never writes a child's tail — the tail `T` of `<b/>` is lost. -/
+theorem mixed_content_lost :
+    let d : Doc := ⟨[], .mk "a".toList [] [] none none [.mk "b".toList [] [] none (some "T".toList) []], []⟩
+    wfDoc d = false ∧ serialize 80 true [] true d = "<a>\n  <b/>\n</a>\n".toList := by
+  decide
+
+/-- White-space-only text is dropped by the writer (`.strip()` test), e.g. a body of one space. -/
+theorem blank_text_lost :
+    let d : Doc := ⟨[], .mk "bodies".toList [] [] (some " ".toList) none [], []⟩
+    wfDoc d = false ∧ serialize 80 true [] true d = "<bodies></bodies>\n".toList := by
+  decide
+
+/-- `>` in a sibling comment is written as `&gt;`, which a comment does not decode. -/
+theorem comment_gt_not_roundtrip :
+    let d : Doc := ⟨[⟨"a>b".toList, none⟩], .mk "r".toList [] [] none none [], []⟩
+    wfDoc d = false ∧ (parse (serialize 80 true [] true d)).map (·.pre) =
+      some [⟨"a&gt;b".toList, none⟩] := by
+  decide
+
+/-- A namespace URI is written without escaping: one containing `&` gives a file that cannot be
+read. -/
+theorem uri_amp_unreadable :
+    let d : Doc := ⟨[], .mk "r".toList [("p".toList, "http://x/?a&b".toList)] [] none none [], []⟩
+    wfDoc d = false ∧ parse (serialize 80 true [] true d) = none := by
+  decide
+
 /-! ## Non-vacuity -/
 
 example : escape isEscText "a\"b&c<d\t\n\x7f>é".toList = "a&quot;b&amp;c&lt;d&#x9;&#xA;&#x7F;>é".toList := by
@@ -65,5 +187,29 @@ example : unescape (escape isEscText [Char.ofNat 1]) = some [Char.ofNat 1] := by
 example : escapeContent "x[y[0]]>1 >= ]>".toList = "x[y[0]]&gt;1 >= ]>".toList := by decide
 example : hasCdataEnd "x[y[0]]>1".toList = true := by decide
 example : escapeContent "]]]>>".toList = "]]]&gt;>".toList := by decide
+
+-- a Capella-shaped document: version comment, namespaces, wrapped root tag, escaped attribute,
+-- text, an always-expanded empty `bodies`
+def sample : Doc :=
+  ⟨[⟨"Capella_Version_5.0.0".toList, none⟩],
+   .mk (clark "http://c/m".toList "Project".toList)
+     [("xsi".toList, XSI), ("m".toList, "http://c/m".toList), ("xmi".toList, XMI)]
+     [("name".toList, "a<b \"q\" & c\n".toList), (clark XMI "version".toList, "2.0".toList), ("id".toList, "i1".toList)]
+     none none
+     [.mk "ownedX".toList [] [(clark XSI "type".toList, "m:T".toList)] none none
+        [.mk "bodies".toList [] [] (some "x[y[0]]>1\nline 2".toList) none [],
+         .mk "bodies".toList [] [] none none []]],
+   [⟨"end".toList, none⟩]⟩
+
+example : wfDoc sample = true := by decide
+example : Doc.beq (canonDoc sample) sample = false := by decide
+example : parse (serialize 30 true [] true sample) = some (canonDoc sample) := parse_ser 30 sample (by decide)
+example : serialize 30 true [] true sample ≠ serialize 80 true [] true sample := by decide
+-- layout: the second attribute moves to the next line once the column has passed `ll`
+example : serialize 16 true [] true ⟨[], .mk "r".toList [] [("a".toList, "0123456789".toList), ("b".toList, "x>\"".toList)] none none [], []⟩
+    = "<r a=\"0123456789\"\n    b=\"x>&quot;\"/>\n".toList := by decide
+example : serialize 17 true [] true ⟨[], .mk "r".toList [] [("a".toList, "0123456789".toList), ("b".toList, "x".toList)] none none [], []⟩
+    = "<r a=\"0123456789\" b=\"x\"/>\n".toList := by decide
+example : wfDoc (canonDoc sample) = true ∧ Doc.beq (canonDoc (canonDoc sample)) (canonDoc sample) = true := by decide
 
 end Capella.Props.C01
